@@ -30,5 +30,5 @@ def run(ctx, rep):
     TR.check_element_display(fx, rep, "C07.4")
     import api_rules as AR
     AR.check_throwable_trace_api(fx, rep, "C07.api")
-    n = R2.check_twins(fx, rep, "C07.5")
-    rep.floor("C07.5", n, 6, "twin pairs")
+    n = R2.check_twins(fx, rep, "C07.5", only=("remap_stacktrace", "remap_throwable"))
+    rep.floor("C07.5", n, 2, "twin pairs")
